@@ -8,6 +8,7 @@
  *                                     sc_instance_key_validate sc_snap_component_validate(s, NULL)
  *                                     validate_snap_name validate_instance_name
  *   T x<tag> x<instance> x<comp>|- -> one 0/1 character: sc_security_tag_validate(tag, instance, comp or NULL)
+ *   H x<tag>                       -> one 0/1 character: sc_is_hook_security_tag(tag)
  */
 #include <stdio.h>
 #include <stdlib.h>
@@ -108,6 +109,9 @@ int main(void)
 			char *inst = unhex(strtok_r(NULL, " ", &save));
 			char *comp = unhex(strtok_r(NULL, " ", &save));
 			puts(sc_security_tag_validate(tag, inst, comp) ? "1" : "0");
+		} else if (strcmp(kind, "H") == 0) {
+			char *tag = unhex(strtok_r(NULL, " ", &save));
+			puts(sc_is_hook_security_tag(tag) ? "1" : "0");
 		} else {
 			fprintf(stderr, "c24 driver: unknown request %s\n", kind);
 			return 3;
